@@ -2,3 +2,4 @@ pub mod explore;
 pub mod report;
 pub mod sys;
 pub mod rt;
+pub mod watch;
